@@ -157,6 +157,32 @@ def run(ctx: core.Ctx):
                 ctx.case(("grp", xg.tobytes(), dt, cs, ce))
                 ctx.count("grouped")
                 check_pixel(ctx, "gammastd_grp", xg, out, nd, dict(kinds=[k1, k2], x=[float(v) for v in xg], dtype=dt, cal=cal.tolist()), groups=groups)
+        # accessor: cubes of every integer width; an observation beyond the int16 range (rainfall in 1/100 mm, an extreme outlier) is a wet
+        # observation like any other: it gets the largest index of its pixel, it never wraps to nodata or to a small value
+        import pandas as pd
+        import xarray as xr
+        import hdc.algo  # noqa: F401
+        for k in range(ctx.budget(6, 40)):
+            n = rng.choice([12, 24, 36])
+            for dt, extremes in (("int32", [40000, 70000, 250000]), ("int64", [33000, 70000]), ("uint16", [40000, 65000]), ("int16", [32000])):
+                base = np.clip(np.round([rng.gammavariate(2.0, 150.0) for _ in range(n)]), 0, 30000)
+                x = base.astype("int64")
+                for e in extremes:
+                    x[rng.randrange(n)] = e
+                cube = np.stack([x, x[::-1]], axis=1).reshape(n, 1, 2).astype(dt)
+                da = xr.DataArray(cube, dims=("time", "y", "x"), coords={"time": pd.date_range("2000-01-01", periods=n, freq="10D")}, attrs={"nodata": 0 if dt == "uint16" else -9999})
+                ndv = 0 if dt == "uint16" else -9999
+                if dt == "uint16":
+                    cube[cube == 0] = 1
+                try:
+                    res = np.asarray(da.hdc.algo.spi().transpose("time", "y", "x")).astype(np.int64)
+                except Exception as e:  # noqa: BLE001
+                    ctx.fail("spi accessor", dict(dtype=dt, x=cube[:, 0, 0].tolist()), repr(e)[:160], "no exception")
+                    continue
+                ctx.case(("acc-wide", cube.tobytes(), dt), sample=dict(accessor="spi", dtype=dt, extremes=extremes))
+                ctx.count("accessor, integer widths")
+                for j in range(2):
+                    check_pixel(ctx, "spi accessor", cube[:, 0, j].astype("float64"), res[:, 0, j], ndv, dict(x=cube[:, 0, j].tolist(), dtype=dt))
     finally:
         ctx.notes["oracle_queries"] = dlg.queries
         dlg.close()
